@@ -1973,8 +1973,8 @@ func (m *Model) revHelperOK(t *Term, wu *writeUnit) (bool, string) {
 	m.eachCall(fn, func(cl ssa.CallInstruction) {
 		h := cl.Common().StaticCallee()
 		pos, isHelper := helpers[h]
-		if !isHelper || bad {
-			return
+		if !isHelper || bad || ssa.Instruction(cl) == wcall {
+			return // (the write sits inside that function itself: not a read helper of this closure)
 		}
 		if cl.Block() == wcall.Block() || reachableFromSuccs(cl.Block(), c)[wcall.Block().Index] {
 			bad = true
